@@ -182,3 +182,15 @@ def compare(res, lines, expect, got, scen):
                                    "impl": e, "model": g, "ops": lines[: i + 1][-12:]})
             return False
     return True
+
+
+def worker_copy(R, t, p=0.5):
+    """What a remote worker (or any caller that rebuilt the trial from its state) hands back to `end_trial`: with
+    probability `p` a copy of the trial - same id, hyperparameters, status, message - instead of the oracle's own
+    object. Every decision of `end_trial` must be taken on, and recorded in, the stored trial."""
+    if R.random() >= p:
+        return t
+    from keras_tuner.engine import trial as trial_module
+    c = trial_module.Trial(hyperparameters=t.hyperparameters.copy(), trial_id=t.trial_id, status=t.status)
+    c.message = t.message
+    return c
